@@ -214,6 +214,15 @@ def run(ctx):
     boundary_layer(ctx, [0, 1, 2, 5, 9] if quick else list(range(-2, 13)))
 
 
+
+_run_inner = run
+
+
+def run(ctx):          # noqa: F811
+    _run_inner(ctx)
+    import batchdriver
+    batchdriver.run(ctx, "C01")
+
 def replay(ctx, path):
     print(json.dumps(json.load(open(path)), indent=1)[:4000])
     print("replay: apply the recorded model/stream with harness/lib/genrun.py (see DESIGN.md)")
